@@ -54,6 +54,29 @@ class Obligation:
         return d
 
 
+def run_z3_fresh(smt2_text, timeout_ms):
+    """decide an SMT-LIB text with the z3 command line (z3-new = z3-solver 5.1 CLI): a fresh process, default tactics"""
+    import subprocess, tempfile
+    exe = '/opt/veriftools/pyvenv/bin/z3'
+    for cand in ('z3-new', exe, '/usr/bin/z3'):
+        from shutil import which
+        if which(cand) or os.path.exists(cand):
+            exe = which(cand) or cand
+            break
+    try:
+        with tempfile.NamedTemporaryFile('w', suffix='.smt2', delete=False) as f:
+            f.write(smt2_text)
+            fn = f.name
+        try:
+            p = subprocess.run([exe, f'-T:{max(1, int(timeout_ms / 1000))}', fn], capture_output=True, text=True, timeout=timeout_ms / 1000 + 5)
+            out = p.stdout.strip().splitlines()
+            return out[0].strip() if out else 'unknown'
+        finally:
+            os.unlink(fn)
+    except Exception:
+        return 'unknown'
+
+
 def run_cvc5(smt2_text, timeout_s):
     """Second back end.  Returns 'unsat' | 'sat' | 'unknown'."""
     try:
@@ -445,6 +468,13 @@ class Ctx:
                 fdump.write(s.to_smt2())
         if r == z3.unknown:
             txt = s.to_smt2()
+            # same text, fresh z3 process (default tactics; independent of the history of this process' context)
+            if run_z3_fresh(txt, min(ex.timeout_ms, 10000)) == 'unsat':
+                ob.time_s = time.time() - t0
+                ob.backend = 'z3-fresh'
+                ob.status = 'discharged'
+                ex.solver_s += ob.time_s
+                return ob
             r2 = run_cvc5(txt, ex.timeout_ms / 1000.0)
             ob.time_s = time.time() - t0
             if r2 == 'unsat':
@@ -462,6 +492,8 @@ class Ctx:
                     ex.solver_s += ob.time_s
                     return ob
             elif ex.timeout_ms > Z3_FIRST_MS:
+                # z3 on the same text in a FRESH context first (the verdict of the in-process solver depends on the history of the
+                # context: names, term order -- the text alone is decided in a fraction of a second), then the in-process solver again
                 s.set('timeout', ex.timeout_ms)
                 r = s.check()
                 ob.time_s = time.time() - t0
